@@ -23,18 +23,42 @@ import numpy as np
 from .. import common as C
 
 PROP = "C19"
-GEN_REGIONS: List[str] = []
+GEN_REGIONS: List[str] = ["Rms"]
 THEOREMS = {
     "SpecKitV.Lemmas.Rms": ["trapz_sq_nonneg", "trapz_append", "integralRms_spec", "integralRms_none", "rms_monotone",
                             "rms_additive_at_grid", "rms_superadditive", "detrend0_sum_zero", "detrend0_const", "detrend0_idem"],
     "SpecKitV.Lemmas.Detrend": ["detr_poly_kills_span", "detr_poly_orthogonal", "detr_poly_idempotent", "detr_linear"],
+    # region Rms (vk/regions/rms.py -> Gen/Rms.lean): crop_data, integral_rms, polynomial_detrend, SpectrumResult.get_rms TRANSLATED from
+    # the current source and proved equal to the hand model; the property theorems above restated for the translated code
+    "SpecKitV.Props.RmsGen": ["gen_crop_data_eq_model", "gen_integral_rms_eq_model", "gen_integral_rms_eq_model_list", "gen_integral_rms_rejects",
+                              "gen_integral_rms_inverted", "gen_integral_rms_inf_inf", "gen_integral_rms_ninf", "gen_integral_rms_pinf",
+                              "gen_integral_rms_one_point", "gen_get_rms_eq_integral_rms", "gen_get_rms_none", "gen_get_rms_csd",
+                              "gen_get_rms_nonfinite", "gen_get_rms_eq_model", "gen_integralRms_spec", "gen_integralRms_none", "gen_rms_monotone",
+                              "gen_rms_additive_at_grid", "gen_rms_superadditive", "gen_detrend0_eq_model", "gen_detrend_rejects",
+                              "gen_detrend_poly_structure", "gen_detrend0_sum_zero", "gen_detrend0_idem", "gen_detrend0_const",
+                              "RmsGen.lsPolyfit_contract", "gen_detrend_orthogonal", "gen_detrend_kills_poly", "gen_detrend_short_zero",
+                              "gen_detrend_idempotent", "gen_detrend_eq_detr"],
 }
 CONTRACTS = ["np.polyfit(t, x, deg) returns the least-squares polynomial of degree deg on the abscissae t = 0..len-1 (orders >= 1 of "
              "polynomial_detrend are not modelled beyond this contract: the projection facts are proved for ANY orthonormal basis of the "
              "polynomial space; order 0 is modelled exactly)",
-             "scipy.integrate.cumulative_trapezoid(y, x, initial=0)[-1] = sum of (x[i+1]-x[i])*(y[i]+y[i+1])/2 (tied by correspondence to Model.trapz)"]
+             "scipy.integrate.cumulative_trapezoid(y, x, initial=0)[-1] = sum of (x[i+1]-x[i])*(y[i]+y[i+1])/2 (tied by correspondence to Model.trapz)",
+             # contracts of the translated region Rms: Lean DEFINITIONS in lean/SpecKitV/Np/Rms.lean (exercised by the generated-vs-real differential run)
+             "Np.Rms.XR / XR.lt,le,gt,ge,neg,isFinite = a Python float that may be +-inf (np.inf, -np.inf, np.isfinite) with IEEE comparisons; NaN is outside the model",
+             "Np.Rms.pyMax / pyMin / XR.pyMax / XR.pyMin = Python builtins max(a, b) = (b if b > a else a), min(a, b) = (b if b < a else a) on two floats",
+             "Np.Rms.npMin / npMax = np.min(a) / np.max(a) over the WHOLE array in whatever order it is",
+             "Np.Rms.compress mask a = boolean-mask selection a[mask] (len(mask) == len(a)): the selected elements in their original order",
+             "Np.Rms.cumtrapz y x c = scipy.integrate.cumulative_trapezoid(y, x, initial=c) for 1-D arrays of equal length >= 1: element 0 is c, element k the "
+             "left-to-right sum of the first k panels (x[i+1]-x[i])*(y[i+1]+y[i])/2; the code reads [-1] (Np.pyIndex)",
+             "Np.Rms.polyval p t = np.polyval(p, t): Horner, highest power first (proved = sum p[k] t^(len(p)-1-k): RmsGen.polyval_get)",
+             "Arr.mean = np.mean (left-to-right sum / length; NumPy sums pairwise: rounding only)",
+             "np.polyfit is a PARAMETER `polyfit` of Gen.polynomial_detrend (Option-valued: none = it raises); assumed of it (RmsGen.PolyfitLS, only in the "
+             "theorems about orders >= 1): on t = 0..n-1 and deg < n it does not raise and returns deg+1 coefficients whose residual is orthogonal to "
+             "1, t, .., t^deg (normal equations of the least-squares fit); the contract is proved consistent (RmsGen.lsPolyfit_contract) and in the "
+             "differential run the driver answers `polyfit` with NumPy's own coefficients (or `raises` where NumPy's polyfit raises)"]
 ASSUMPTIONS = ["theorems are over the reals; floating-point rounding is covered by the stated tolerances (forward bounds scaled by the data), not by theorem",
-               "RMS theorems assume a strictly increasing frequency grid; unsorted grids are only tied model<->code by correspondence",
+               "the RMS property theorems (spec, monotone, additive, super-additive) assume a strictly increasing frequency grid; for EVERY grid (unsorted, "
+               "duplicates) translated code = hand model is proved (gen_integral_rms_eq_model) and the real code is tied to both by the differential runs",
                "'full-band RMS reproduces the time-domain RMS within a few percent' is statistical and grid dependent: support run only "
                "(threshold 15 % white / 35 % low-pass coloured, measured worst case on the unchanged tree 3.1 % / 10.3 % over 360 records)",
                "additivity of power is demanded only for split points that are grid frequencies; elsewhere only super-additivity (DESIGN C19-d)"]
@@ -680,6 +704,8 @@ def correspondence(ctx) -> C.Part:
     _quiet()
     P = C.Part()
     rng = ctx.rng
+    gen_rms_cases: List[Tuple[np.ndarray, np.ndarray, Any, str, str, Any]] = []     # replayed through the GENERATED code at the end
+    gen_det_cases: List[Tuple[np.ndarray, str]] = []
     ngrids = ctx.scale(300, 3000)
     for i in range(ngrids):
         if ctx.time_left() < 30:
@@ -707,6 +733,7 @@ def correspondence(ctx) -> C.Part:
                 vi = "RAISE"
             r = ctx.driver.ask(rms_line(f, y, band))
             vm: Any = "RAISE" if r == "RAISE" else C.h2f(r.split()[0])
+            gen_rms_cases.append((f, y, band, gk, mode, vi))
             P.cases += 1
             P.hit(f"rms-{gk}")
             P.hit(f"rms-band-{mode}")
@@ -749,6 +776,7 @@ def correspondence(ctx) -> C.Part:
         x = np.asarray(make_series(int(rng.integers(0, 2 ** 62)), n, kind), dtype=np.float64)
         vi = np.asarray(impl_detrend(x, 0), dtype=np.float64)
         vm = np.array(ctx.driver.floats("detrend0 " + C.arr(x)))
+        gen_det_cases.append((x, kind))
         P.cases += 1
         P.hit("detrend0")
         if n >= 2 and float(np.ptp(x)) > 0:
@@ -758,7 +786,176 @@ def correspondence(ctx) -> C.Part:
             disagree(P, {"op": "detrend0", "x": x.tolist(), "impl": vi.tolist(), "model": vm.tolist(), "tol": tol})
         elif i in (16, 17):
             P.sample({"op": "detrend0", "n": n, "kind": kind, "impl": vi[:4].tolist(), "model": vm[:4].tolist()})
+    # generated code (Gen/Rms.lean, translated from the current source) vs the functions it was generated from; the child generator is
+    # seeded by ONE integer drawn after the streams above, so those are unchanged
+    gen_differential(ctx, P, np.random.default_rng(int(rng.integers(0, 2 ** 62))), gen_rms_cases, gen_det_cases)
     return P
+
+
+# =====================================================================================================================
+#  region Rms: the GENERATED definitions executed in Float by the driver vs the real functions (validates the translator)
+# =====================================================================================================================
+GEN_ULP = 4.0     # the generated code performs the same IEEE operations in the same order (left-to-right cumsum, x*x, sqrt): allowed
+#                   deviation 4 ulp of the result (libm sqrt and NumPy's SIMD loops are correctly rounded; measured: bit-identical)
+
+
+def band_tokens(band: Any) -> str:
+    return " 0" if band is None else f" 1 {C.f2h(band[0])} {C.f2h(band[1])}"
+
+
+def same_float(a: float, b: float, scale: float = 0.0) -> bool:
+    if math.isnan(a) or math.isnan(b):
+        return math.isnan(a) and math.isnan(b)
+    return abs(a - b) <= GEN_ULP * U * max(abs(a), abs(b), scale) + 1e-300
+
+
+def impl_get_rms(f: np.ndarray, y: np.ndarray, band: Any, iscsd: bool = False) -> Any:
+    """the real SpectrumResult.get_rms executed on an object that carries only what the method reads (iscsd, f, asd)"""
+    import types
+    from speckit.analysis import SpectrumResult
+    stub = types.SimpleNamespace(iscsd=iscsd, f=f, asd=y)
+    try:
+        with warnings.catch_warnings():
+            warnings.simplefilter("ignore")
+            return float(SpectrumResult.get_rms(stub, band))
+    except (ValueError, NotImplementedError):
+        return "RAISE"
+
+
+def gen_disagree(P: C.Part, d: Dict[str, Any]) -> None:
+    """a disagreement between the GENERATED code and the function it was generated from (a translator defect, whatever the source says)"""
+    P.hit("gen-vs-real-disagreement")
+    disagree(P, d)
+
+
+def polyfit_table(x: np.ndarray, maxdeg: int) -> List[np.ndarray]:
+    """NumPy's own answers to every `np.polyfit(arange(len x), x, deg)` the generated code may request (the contract parameter)"""
+    t = np.arange(len(x))
+    tab = []
+    for dg in range(maxdeg + 1):
+        if len(x) == 1 and dg >= 1:          # NumPy's polyfit fails here (all-zero Vandermonde columns; LAPACK prints to stderr): no answer
+            tab.append(np.zeros(0))
+            continue
+        try:
+            with warnings.catch_warnings():
+                warnings.simplefilter("ignore")
+                tab.append(np.asarray(np.polyfit(t, x, deg=dg), dtype=np.float64))
+        except Exception:
+            tab.append(np.zeros(0))
+    return tab
+
+
+def gen_differential(ctx, P: C.Part, crng: np.random.Generator, rms_cases, det_cases) -> None:
+    from speckit.dsp import crop_data, polynomial_detrend
+    t_start = ctx.time_left()
+    # ---- integral_rms / crop_data / get_rms on every grid x band of the model correspondence above
+    for k, (f, y, band, gk, mode, vi) in enumerate(rms_cases):
+        if ctx.time_left() < 25:
+            P.notes.append("generated-code differential: time budget reached")
+            break
+        n = len(f)
+        base = {"f": f.tolist(), "y": y.tolist(), "band": band, "grid": gk, "mode": mode}
+        # integral_rms
+        r = ctx.driver.ask("grms " + C.arr(f) + " " + C.arr(y) + band_tokens(band))
+        vg: Any = "RAISE" if r == "RAISE" else (C.h2f(r) if not r.startswith("ERR") else r)
+        P.cases += 1
+        P.hit("gen-integral_rms")
+        P.hit(f"gen-rms-band-{mode}")
+        P.hit(f"gen-rms-{gk}")
+        if band is not None and (math.isinf(band[0]) or math.isinf(band[1])):
+            P.hit("gen-rms-infinite-edge")
+        if vi == "RAISE" or vg == "RAISE" or isinstance(vg, str):
+            if vi != vg:
+                gen_disagree(P, {"op": "grms", **base, "impl": vi, "generated": vg})
+            else:
+                P.hit("gen-rms-raise")
+        elif not same_float(vi, vg):
+            gen_disagree(P, {"op": "grms", **base, "impl": vi, "generated": vg})
+        elif vi > 0:
+            P.nontrivial.add(("gen-rms", n, gk, mode))
+        # crop_data on the band itself (not clamped): raises for an inverted band, keeps both edges
+        if band is not None:
+            try:
+                xc, yc = crop_data(f, y, band[0], band[1])
+                ci: Any = (xc.tolist(), yc.tolist())
+            except ValueError:
+                ci = "RAISE"
+            r = ctx.driver.ask("gcrop " + C.arr(f) + " " + C.arr(y) + f" {C.f2h(band[0])} {C.f2h(band[1])}")
+            if r == "RAISE" or r.startswith("ERR"):
+                cg: Any = r
+            else:
+                tk = r.split()
+                nx, ny = int(tk[0]), int(tk[1])
+                vals = [C.h2f(v) for v in tk[2:]]
+                cg = (vals[:nx], vals[nx:nx + ny])
+            P.cases += 1
+            P.hit("gen-crop_data")
+            if ci != cg:
+                gen_disagree(P, {"op": "gcrop", **base, "impl": ci, "generated": cg})
+            elif ci != "RAISE":
+                P.hit("gen-crop-kept=%s" % ("0" if not ci[0] else "1" if len(ci[0]) == 1 else "all" if len(ci[0]) == n else "some"))
+                if 0 < len(ci[0]) < n:
+                    P.nontrivial.add(("gen-crop", n, gk, mode))
+            else:
+                P.hit("gen-crop-raise")
+        # get_rms band handling: the band as generated, and (every third case) swapped; cross spectra refuse
+        for variant in ((0, 1) if (band is not None and k % 3 == 0) else (0,)):
+            b = band if (variant == 0 or band is None) else (band[1], band[0])
+            iscsd = (k % 41 == 7)
+            gi = impl_get_rms(f, y, b, iscsd)
+            r = ctx.driver.ask(f"ggetrms {1 if iscsd else 0} " + C.arr(f) + " " + C.arr(y) + band_tokens(b))
+            gg: Any = "RAISE" if r == "RAISE" else (C.h2f(r) if not r.startswith("ERR") else r)
+            P.cases += 1
+            P.hit("gen-get_rms")
+            if b is not None and b[0] > b[1]:
+                P.hit("gen-get_rms-swapped-band")
+            if gi == "RAISE" or gg == "RAISE" or isinstance(gg, str):
+                P.hit("gen-get_rms-raise")
+                if gi != gg:
+                    gen_disagree(P, {"op": "ggetrms", **base, "band": b, "iscsd": iscsd, "impl": gi, "generated": gg})
+            elif not same_float(gi, gg):
+                gen_disagree(P, {"op": "ggetrms", **base, "band": b, "iscsd": iscsd, "impl": gi, "generated": gg})
+            elif gi > 0:
+                P.nontrivial.add(("gen-get_rms", n, gk, mode, variant))
+    # ---- polynomial_detrend: order 0 on the series above (bit-level: same mean? np.mean sums pairwise -> tolerance), orders 1..5 with
+    #      NumPy's polyfit coefficients supplied as the contract parameter, rejected inputs
+    extra = [(np.asarray(make_series(int(crng.integers(0, 2 ** 62)), int(n_), SERIES_KINDS[int(crng.integers(0, len(SERIES_KINDS)))]), dtype=np.float64), "short")
+             for n_ in (1, 1, 2, 2, 3, 3, 4, 5, 6, 7)]
+    for k, (x, kind) in enumerate(list(det_cases) + extra):
+        if ctx.time_left() < 20:
+            break
+        n = len(x)
+        amax = float(np.max(np.abs(x))) if n else 0.0
+        orders = [0, int(crng.integers(1, 6))] + ([1, 2, 3, 4, 5] if kind == "short" else []) + ([-1] if k % 10 == 0 else [])
+        tab = polyfit_table(x, 5)
+        for order in orders:
+            try:
+                with warnings.catch_warnings():
+                    warnings.simplefilter("ignore")
+                    di: Any = np.asarray(polynomial_detrend(x, order), dtype=np.float64)
+            except ValueError:
+                di = "RAISE"
+            r = ctx.driver.ask("gdetrend " + C.arr(x) + f" {order} {len(tab)} " + " ".join(C.arr(c) for c in tab))
+            P.cases += 1
+            P.hit(f"gen-detrend-order-{order}")
+            if n < order + 1:
+                P.hit("gen-detrend-short-series")
+            if r == "RAISE" or r.startswith("ERR") or isinstance(di, str):
+                if not (r == "RAISE" and isinstance(di, str)):
+                    gen_disagree(P, {"op": "gdetrend", "x": x.tolist(), "order": order, "impl": di if isinstance(di, str) else di.tolist(), "generated": r[:200]})
+                else:
+                    P.hit("gen-detrend-raise")
+                continue
+            dg_ = np.array([C.h2f(v) for v in r.split()[1:]])
+            # order 0: sequential (generated Arr.mean) vs pairwise (np.mean) summation; orders >= 1: identical Horner + subtraction on NumPy's own
+            # coefficients, evaluated on integer abscissae (NumPy multiplies by the int array converted to float: same values)
+            # (measured: orders >= 1 bit-identical, order 0 within 65 u max|x| for n <= 400)
+            tol = 8 * U * (n + 2) * amax if order == 0 else 8 * U * (amax + float(np.max(np.abs(x - di)))) + 1e-300
+            if dg_.shape != di.shape or not np.all(np.abs(di - dg_) <= tol):
+                gen_disagree(P, {"op": "gdetrend", "x": x.tolist(), "order": order, "impl": di.tolist(), "generated": dg_.tolist(), "tol": tol})
+            elif n >= 2 and float(np.ptp(x)) > 0:
+                P.nontrivial.add(("gen-detrend", n, kind, order))
+    P.notes.append(f"generated-code differential (region Rms): {t_start - ctx.time_left():.1f}s")
 
 
 # =====================================================================================================================
